@@ -38,14 +38,20 @@ def run_case(desc):
 
     if direction == "forward":
         drv = np.abs(np.array(cfg["driver"], float))  # non-negative inflow
-        a = sg.build_stock(dict(cfg, cls="idsm"), driver=drv)
+        # "with the same lifetime model": optionally one shared LifetimeModel object for all three stocks
+        shared = sg.build_lifetime(sg.universe_of(cfg), cfg["lt"]) if desc.get("shared_model") else None
+        if shared is not None:
+            cl.append("shared-lifetime-model-object")
+        a = sg.build_stock(dict(cfg, cls="idsm"), driver=drv, lifetime=shared)
         a.compute()
         ta = tables(a)
         scale = float(np.max(np.abs(ta["stock"])) + np.max(np.abs(ta["inflow"])) * float(np.max(dt)))
         for solver in ("manual", "lapack"):
-            b = sg.build_stock(dict(cfg, cls=f"sdsm_{solver}"), driver=ta["stock"])
+            b = sg.build_stock(dict(cfg, cls=f"sdsm_{solver}"), driver=ta["stock"], lifetime=shared)
             b.compute()
             tb = tables(b)
+            d = float(np.max(np.abs(tb["stock"] - ta["stock"])))
+            require(d <= tol_for(scale), "stock-driven-model-altered-prescribed-stock", f"{solver}: max diff {d:.3g}")
             for k in ("inflow", "outflow", "sbc", "obc"):
                 s_k = scale / float(np.min(dt)) if k in ("inflow", "outflow", "obc") else scale
                 d = float(np.max(np.abs(ta[k] - tb[k])))
@@ -53,17 +59,23 @@ def run_case(desc):
         nontrivial = gk != "unit" or sg.lt_varies(cfg["lt"])
     else:
         res = {}
+        shared = sg.build_lifetime(sg.universe_of(cfg), cfg["lt"]) if desc.get("shared_model") else None
+        if shared is not None:
+            cl.append("shared-lifetime-model-object")
+        prescribed = np.array(cfg["driver"], float)
         for solver in ("manual", "lapack"):
-            b = sg.build_stock(dict(cfg, cls=f"sdsm_{solver}"))
+            b = sg.build_stock(dict(cfg, cls=f"sdsm_{solver}"), lifetime=shared)
             b.compute()
             res[solver] = tables(b)
+            d = float(np.max(np.abs(res[solver]["stock"].reshape(-1) - prescribed)))
+            require(d == 0.0, "stock-driven-model-altered-prescribed-stock", f"{solver}: max diff {d:.3g}")
             require(all(np.all(np.isfinite(v)) for v in res[solver].values()), "non-finite-result", solver)
         scale = float(np.max(np.abs(res["manual"]["stock"])) + np.max(np.abs(res["manual"]["inflow"])) * float(np.max(dt)))
         for k in ("inflow", "outflow", "sbc", "obc"):
             s_k = scale / float(np.min(dt)) if k in ("inflow", "outflow", "obc") else scale
             d = float(np.max(np.abs(res["manual"][k] - res["lapack"][k])))
             require(d <= tol_for(s_k), f"solvers-disagree-{k}", f"max diff {d:.3g} (tol {tol_for(s_k):.2g})")
-        a = sg.build_stock(dict(cfg, cls="idsm"), driver=res["manual"]["inflow"])
+        a = sg.build_stock(dict(cfg, cls="idsm"), driver=res["manual"]["inflow"], lifetime=shared)
         a.compute()
         ta = tables(a)
         d = float(np.max(np.abs(ta["stock"] - res["manual"]["stock"])))
@@ -89,6 +101,7 @@ class RoundTrip(Facet):
             {
                 "cfg": sg.stock_configs(classes=("idsm",), max_n=8 if tier == "quick" else 12, well_conditioned=True, signed=True),
                 "direction": st.sampled_from(["forward", "backward"]),
+                "shared_model": st.booleans(),
             }
         )
 
